@@ -603,12 +603,22 @@ func (s *Sched) finalRaces() {
 		return
 	}
 	for _, t := range s.threads {
-		if t.done || t.pending == nil || t.pending.completed || !s.enabled(t) {
+		if t.done || t.pending == nil || t.pending.completed {
+			continue
+		}
+		// also for a thread that is BLOCKED at its pending op (a lock somebody keeps, a receive
+		// whose item somebody else took): the step that disabled it is the one to reverse -
+		// otherwise the executions in which this thread went first are never tried from here
+		if !s.enabled(t) && !FinalRacesBlocked {
 			continue
 		}
 		s.detectRaces(t, accessesOf(t.pending.kind, t.pending, t), s.clockOf(t), d)
 	}
 }
+
+// FinalRacesBlocked: race check of the pending operations of blocked threads when an execution
+// ends (deadlock, exit, return of main). VS_NO_FINAL_BLOCKED=1 switches it off (measurements).
+var FinalRacesBlocked = os.Getenv("VS_NO_FINAL_BLOCKED") == ""
 
 var DebugRaceAll = os.Getenv("VS_DEBUG_RACE") != ""
 
